@@ -419,8 +419,13 @@ func (c *Ctx) mrScan(l *mrLoop, info *types.Info, body ast.Node, t *taint, local
 		case *ast.ReturnStmt:
 			if depth == 0 {
 				for _, r := range s.Results {
-					if tv, ok := info.Types[r]; ok && !isErrorType(tv.Type) && tainted(r) {
-						add(s.Pos(), "S6", "returns a value derived from the current entry ("+types.ExprString(r)+"): which entry comes first depends on map order")
+					if tv, ok := info.Types[r]; ok && tainted(r) {
+						if isErrorType(tv.Type) {
+							// an error that names the current entry: which entry is named depends on the order
+							add(s.Pos(), "S6", "returns an error built from the current entry ("+types.ExprString(r)+"): when several entries qualify, the text of the error depends on map order")
+						} else {
+							add(s.Pos(), "S6", "returns a value derived from the current entry ("+types.ExprString(r)+"): which entry comes first depends on map order")
+						}
 					}
 				}
 			}
@@ -717,6 +722,23 @@ func (c *Ctx) sortedAfter(info *types.Info, fnBody *ast.BlockStmt, after ast.Stm
 							if lit := lessOfSortCall(info, call); lit != nil {
 								if v, _ := c.lessVerdict(info, lit); v == "lossy" {
 									return false // a comparator that lets elements tie keeps the map order among them
+								}
+								// a comparator on a number read from the elements through a method (an index, an id,
+								// a count) orders them only as far as that number tells them apart: elements that share
+								// it - all of them while it still has its initial value - keep the map's order
+								numericKey := false
+								ast.Inspect(lit.Body, func(q ast.Node) bool {
+									if be, isBin := q.(*ast.BinaryExpr); isBin && (be.Op == token.LSS || be.Op == token.GTR || be.Op == token.LEQ || be.Op == token.GEQ) {
+										if cl, isCall := unparen(be.X).(*ast.CallExpr); isCall && isInteger(info.TypeOf(be.X)) {
+											if g := calleeOf(info, cl); g != nil && inRepo(g) {
+												numericKey = true
+											}
+										}
+									}
+									return true
+								})
+								if numericKey {
+									return false
 								}
 							}
 							if id := baseIdent(call.Args[0]); id != nil && info.Uses[id] == obj {
